@@ -391,7 +391,12 @@ def corpus_specs():
         for name in sorted(os.listdir(path)):
             data = json.load(open(os.path.join(path, name)))
             inp = data.get("input", data)
-            out.append((c01.case_from_replay(inp["case"]), inp["kind"], inp.get("seed", 0)))
+            case = c01.case_from_replay(inp["case"])
+            out.append((case, inp["kind"], inp.get("seed", 0)))
+            # past failures are cheap to re-probe: the other graph transformations, other random choices
+            for kind in ("relabel", "insertion", "edges"):
+                for seed in (11, 23):
+                    out.append((case, kind, seed))
     return out
 
 
